@@ -64,6 +64,7 @@ type frameT struct {
 
 type caseT struct {
 	R       uint32   `json:"r"`
+	S       uint32   `json:"send_buf"` // the connection's send buffer (0 = same as R); the receive limit must not depend on it
 	Frames  []frameT `json:"frames"`
 	Trunc   int      `json:"trunc"`     // bytes removed from the end of the stream
 	SegMode string   `json:"seg_mode"`  // informational
@@ -310,6 +311,16 @@ func genCase(t *rapid.T) caseT {
 	case 5:
 		c.R = uint32(rapid.IntRange(8192, 1<<20).Draw(t, "r"))
 	}
+	switch rapid.IntRange(0, 3).Draw(t, "sClass") {
+	case 0:
+		c.S = c.R
+	case 1:
+		c.S = 8192
+	case 2:
+		c.S = 2 * c.R
+	case 3:
+		c.S = uint32(rapid.IntRange(8192, 1<<21).Draw(t, "s"))
+	}
 	n := rapid.IntRange(1, 24).Draw(t, "nframes")
 	term := rapid.IntRange(0, 9).Draw(t, "terminator") // 0-3 none, 4-7 bad frame, 8-9 truncated tail
 	badAt := -1
@@ -451,7 +462,11 @@ func runOnce(c caseT, e expectT, stream []byte) outcome {
 	a := struct{ c *net.TCPConn }{rc}
 	w.SetNoDelay(true)
 
-	conn, err := uacp.NewConn(a.c, &uacp.Acknowledge{ReceiveBufSize: c.R, SendBufSize: c.R, MaxChunkCount: 0, MaxMessageSize: 0})
+	sendBuf := c.S
+	if sendBuf == 0 {
+		sendBuf = c.R
+	}
+	conn, err := uacp.NewConn(a.c, &uacp.Acknowledge{ReceiveBufSize: c.R, SendBufSize: sendBuf, MaxChunkCount: 0, MaxMessageSize: 0})
 	if err != nil {
 		return outcome{msg: fmt.Sprintf("NewConn: %v", err)}
 	}
